@@ -24,7 +24,14 @@ def parseFilt (s : String) : Option (Nat × Nat) :=
   if s == "-" then none else
   match s.splitOn ":" with
   | [m, r] => some (nat! m, nat! r)
+  | [m, r, _] => some (nat! m, nat! r)
   | _ => none
+
+/-- "m:r:c": the filter cancels the publish context when it is evaluated -/
+def parseFiltCancels (s : String) : Bool :=
+  match s.splitOn ":" with
+  | [_, _, c] => c == "c"
+  | _ => false
 
 def parseSel : String → CtxSel
   | "fresh" => .fresh | "dead" => .dead | "inherit" => .inherit | _ => .bg
@@ -32,7 +39,7 @@ def parseSel : String → CtxSel
 def parseAction (ws : List String) : Option Action :=
   match ws with
   | ["sub", ty, hid, once, async, seq, filt, body] =>
-    some (.subscribe (nat! ty) (nat! hid) (bool! once) (bool! async) (bool! seq) (parseFilt filt) (nat! body))
+    some (.subscribe (nat! ty) (nat! hid) (bool! once) (bool! async) (bool! seq) (parseFilt filt) (nat! body) (parseFiltCancels filt))
   | ["unsub", ty, hid] => some (.unsubscribe (nat! ty) (nat! hid))
   | ["clear", ty] => some (.clear (nat! ty))
   | ["clearall"] => some .clearAll
